@@ -153,6 +153,7 @@ def check_tx(ctx, case):
         t = Transaction.parse(raw, strict=strict)
     except Exception as e:
         if strict:
+            # documented: strict mode raises when a transaction is "malformed, incomplete or not understood"
             ctx.refusal('strict.%s' % type(e).__name__)
             return
         ctx.disc('tx.parse.raises', 'Transaction.parse(strict=False) raised %r on well-formed %s' %
